@@ -29,7 +29,8 @@ def base_discretizer(case):
     ordi = [f["name"] for f in case["features"] if f["kind"] == "ord"]
     orders = {f["name"]: GroupedList(decs(f["order"])) for f in case["features"] if f["kind"] == "ord"}
     return Discretizer(quantitative_features=quant, qualitative_features=cat, ordinal_features=ordi,
-                       values_orders=orders, min_freq=p["min_freq"], copy=True, verbose=False)
+                       values_orders=orders, min_freq=p["min_freq"], copy=True, verbose=False,
+                       **dict(case.get("kwargs") or {}))
 
 
 def positions(members, ref):
